@@ -242,6 +242,9 @@ func c10Canon(ans string) string {
 	norm = func(x interface{}) interface{} {
 		switch t := x.(type) {
 		case map[string]interface{}:
+			if _, isItem := t["label"]; isItem {
+				delete(t, "data") // completion item: index into the server's cache = position in a map iteration
+			}
 			for k, e := range t {
 				t[k] = norm(e)
 			}
@@ -350,6 +353,7 @@ func c10Answers(dir string, f []string) string {
 		allowed[before], allowed[after] = true, true
 	}
 	out := 0
+	var suspects []string
 	for k := 0; k < reps; k++ {
 		mu.pre()
 		gap := []int{0, 0, 5, 20, 60, 150, 400, 1000}[rng.Intn(8)]
@@ -361,13 +365,31 @@ func c10Answers(dir string, f []string) string {
 			return "TIMEOUT"
 		}
 		if !allowed[c10Canon(a)] {
-			out++
-			if os.Getenv("C10_DEBUG") != "" {
-				fmt.Fprintf(os.Stderr, "OUT answer: %s\nallowed: %v\n", c10Canon(a), allowed)
-			}
+			suspects = append(suspects, c10Canon(a))
 		}
 		mu.undo()
 		c.fence()
+	}
+	if len(suspects) > 0 {
+		// an answer outside the two sequential answers: rule out answers that vary from call to call even
+		// sequentially (map iteration order inside the server) by sampling both orders some more times
+		for r := 0; r < 8; r++ {
+			mu.pre()
+			allowed[ask()] = true
+			mu.do()
+			c.fence()
+			allowed[ask()] = true
+			mu.undo()
+			c.fence()
+		}
+		for _, a := range suspects {
+			if !allowed[a] {
+				out++
+				if os.Getenv("C10_DEBUG") != "" {
+					fmt.Fprintf(os.Stderr, "OUT answer: %s\nallowed: %v\n", a, allowed)
+				}
+			}
+		}
 	}
 	if out > 0 {
 		return fmt.Sprintf("OUT %d/%d", out, reps)
